@@ -375,6 +375,15 @@ impl ArrayImpl {
 
     /// Cast the array to another type.
     pub fn cast(&self, data_type: &DataType) -> Result {
+        let mut array = self.cast_inner(data_type)?;
+        // a DECIMAL(p, s) has exactly `s` fractional digits
+        if let (Self::Decimal(a), DataType::Decimal(_, Some(scale))) = (&mut array, data_type) {
+            Arc::make_mut(a).rescale(*scale);
+        }
+        Ok(array)
+    }
+
+    fn cast_inner(&self, data_type: &DataType) -> Result {
         type Type = DataType;
         Ok(match self {
             Self::Null(a) => {
